@@ -186,6 +186,9 @@ def run(ctx):
     import src.quadrature as q
     import src.quadrature_rules as qr
     entries, order, dead = tab_rules.parse_tables()
+    if tab_rules.PROBED[0]:
+        ctx.note('the rule tables are no longer if/elif chains of literals: entries were PROBED at run time (the doubles the code uses); '
+                 'the clause about the literals as written (1e-30) is not decidable in this mode and was skipped')
     fam_keys = {f: [k for (fn, k) in order if fn == f] for f in FAMILIES}
     for f in FAMILIES:
         if not fam_keys[f]:
@@ -236,7 +239,7 @@ def run(ctx):
                 distinct.add((fn, key, m['kind'], m['k']))
                 worst[fn]['source'] = max(worst[fn]['source'], m['src_hi'])
                 worst[fn]['double'] = max(worst[fn]['double'], m['dbl_hi'])
-                if not m['src_ok']:
+                if not m['src_ok'] and not tab_rules.PROBED[0]:
                     bad['source-1e-30'].append(m)
                 if not m['dbl_ok']:
                     bad['double-1e-13'].append(m)
